@@ -285,6 +285,8 @@ def o_C08(op, ob, before):
         return []
     if m.get("retkind") == "perr" and ob.ret == "null":
         return []
+    if retcode(op, ob) in m.get("not_success", ()):      # a plain status that is no violation, but no success either (gets_s at EOF)
+        return []
     after = dest_cells(op, ob.img)
     if m.get("slack", 1):
         if 0 in after:
